@@ -817,7 +817,17 @@ VH_CMD(banman)
                 vh::log().obs("op_ban");
             } else if (pick < 42) {
                 const bool by_addr = rng.chance(1, 3);
-                const size_t i = rng.below(by_addr ? addrs.size() : sns.size());
+                size_t i = rng.below(by_addr ? addrs.size() : sns.size());
+                if (rng.coin()) {
+                    // prefer something that is banned right now
+                    for (size_t k = 0, n = by_addr ? addrs.size() : sns.size(); k < n; ++k) {
+                        const size_t cand = (i + k) % n;
+                        if (by_addr ? bm->IsBanned(CSubNet{addrs[cand]}) : bm->IsBanned(sns[cand])) {
+                            i = cand;
+                            break;
+                        }
+                    }
+                }
                 if (by_addr ? !CSubNet{addrs[i]}.IsValid() : !sns[i].IsValid()) {
                     vh::log().obs("skipped_invalid_subnet_ops");
                     --step;
